@@ -161,6 +161,25 @@ def check_case(sv, case, ast, text=None, match_law=False):
     return st, info
 
 
+def forgiving_form(rng, cfg):
+    """(ast, text): :is()/:where() whose written list has extra members that contribute nothing - empty ones and
+    ones ending in a dangling combinator (forgiving selector list) - the reference evaluates the list without them."""
+    members = sels.gen_list(rng, rng.choice([1, 2, 2, 3]), cfg)
+    nm = rng.choice(['is', 'where'])
+    ast = [[{'tag': None, 'ids': [], 'classes': [], 'attrs': [], 'pseudos': [(nm, members)]}]]
+    parts = [sels.render_complex(m) for m in members]
+    for _ in range(rng.choice([1, 1, 2])):
+        junk = sels.render_complex(sels.gen_list(rng, 1, cfg)[0]) + rng.choice([' >', '>', ' + ', '~', ' ~ ', ' > '])
+        parts.insert(rng.randrange(len(parts)), rng.choice([junk, junk, junk, '', ' ']))      # never last: a trailing dangling member is rejected
+    if rng.random() < .2:
+        parts.append('')
+    text = ':%s(%s)' % (nm, rng.choice([',', ', ', ' , ']).join(parts))
+    if rng.random() < .3:
+        ast = [[{'tag': (None, '*'), 'ids': [], 'classes': [], 'attrs': [], 'pseudos': []}, ' ', ast[0][0]]]
+        text = '* ' + text
+    return ast, text
+
+
 def _fails_factory(sv, how, target, kind):
     def fails(tops, ast):
         case = cases.Case(tops, how, target)
@@ -238,6 +257,15 @@ def run_unit(u):
                 case = cases.Case(tops, how, target)
                 tcfg = sels.tune_to_tree(cfg, case.top_sn, rng)
                 for k3 in range(3):
+                    if forced is None and rng.random() < .05:
+                        ast, text = forgiving_form(rng, tcfg)
+                        st, info = cases.compare_select(sv, case, ast, text, check_structure=False)
+                        bump('forgiving_lists')
+                        if st == 'RAISE' and 'SelectorSyntaxError' in info.get('exc', ''):
+                            bump('forgiving_rejected')       # rejecting is C06's business, a wrong answer is ours
+                            continue
+                        handle(case, ast, st, info, tops)
+                        continue
                     ast = forced if (forced is not None and k3 == 0) else sels.gen_list(rng, rng.choice([1, 2, 2, 3]), tcfg if k3 else cfg)
                     st, info = check_case(sv, case, ast, cases.respelled(rng, ast, .1), match_law=rng.random() < .15)
                     if info.get('match_law_checked'):
